@@ -1244,4 +1244,170 @@ theorem old_union_right_diverges (cfg : Cfg) (he : cfg.unionOldExpanded = false)
     rw [if_pos (by simp [isUnion]), e2, toTuple_nonunion cfg x.strip hx]
     simp only [allL, anyL, ih x.strip hsx]
 
+/-! ## more fuel never changes an answer -/
+
+theorem anyL_mono {α} (g g' : α → Option Bool) (hg : ∀ x b, g x = some b → g' x = some b)
+    (xs : List α) (b : Bool) (h : anyL g xs = some b) : anyL g' xs = some b := by
+  induction xs with
+  | nil => exact h
+  | cons x xs ih =>
+    simp only [anyL] at h ⊢
+    split at h
+    · cases h
+    · rename_i e; rw [hg x true e]; exact h
+    · rename_i e; rw [hg x false e]; exact ih h
+
+theorem allL_mono {α} (g g' : α → Option Bool) (hg : ∀ x b, g x = some b → g' x = some b)
+    (xs : List α) (b : Bool) (h : allL g xs = some b) : allL g' xs = some b := by
+  induction xs with
+  | nil => exact h
+  | cons x xs ih =>
+    simp only [allL] at h ⊢
+    split at h
+    · cases h
+    · rename_i e; rw [hg x false e]; exact h
+    · rename_i e; rw [hg x true e]; exact ih h
+
+theorem allZip_mono {α} (f f' : α → α → Option Bool) (hf : ∀ x y b, f x y = some b → f' x y = some b)
+    (xs ys : List α) (b : Bool) (h : allZip f xs ys = some b) : allZip f' xs ys = some b := by
+  induction xs generalizing ys with
+  | nil => simpa [allZip] using h
+  | cons x xs ih =>
+    cases ys with
+    | nil => simpa [allZip] using h
+    | cons y ys =>
+      simp only [allZip] at h ⊢
+      split at h
+      · cases h
+      · rename_i e; rw [hf x y false e]; exact h
+      · rename_i e; rw [hf x y true e]; exact ih ys h
+
+theorem body_mono (cfg : Cfg) (rec rec' : Arg → Arg → Option Bool)
+    (hr : ∀ x y b, rec x y = some b → rec' x y = some b) (h o : Arg) (b : Bool)
+    (hm : msBody cfg rec h o = some b) : msBody cfg rec' h o = some b := by
+  unfold msBody at hm ⊢
+  by_cases hu : (isUnion h || isUnion o) = true
+  · rw [if_pos hu] at hm ⊢
+    exact allL_mono _ _ (fun x b' hx => anyL_mono _ _ (fun y => hr x y) _ b' hx) _ b hm
+  · rw [if_neg hu] at hm ⊢
+    revert hm
+    cases argOrigin h <;> cases argOrigin o <;> dsimp only <;> intro hm
+    · exact hm
+    · exact hm
+    · exact hm
+    · rename_i g g'
+      by_cases hg : (g != g') = true
+      · rw [if_pos hg] at hm ⊢; exact hm
+      · rw [if_neg hg] at hm ⊢
+        split at hm
+        · exact hm
+        · rename_i hnl
+          split
+          · rw [if_pos (by assumption)] at hm; exact hm
+          · rw [if_neg (by assumption)] at hm
+            by_cases c4 : g.ordered = true
+            · simp only [c4, if_true] at hm ⊢
+              by_cases c5 : (argArgs o).isEmpty = true
+              · simp only [c5, if_true] at hm ⊢; exact hm
+              · simp only [c5] at hm ⊢
+                by_cases c6 : ((argArgs o).length == (argArgs h).length) = true
+                · simp only [c6, if_true] at hm ⊢
+                  exact allZip_mono _ _ hr _ _ b hm
+                · simp only [c6] at hm ⊢; exact hm
+            · simp only [c4] at hm ⊢
+              exact allL_mono _ _ (fun x b' hx => anyL_mono _ _ (fun y => hr x y) _ b' hx) _ b hm
+
+theorem ms_mono (cfg : Cfg) : ∀ n x y b, ms cfg n x y = some b → ms cfg (n + 1) x y = some b := by
+  intro n
+  induction n with
+  | zero => intro x y b h; simp [ms] at h
+  | succ n ih =>
+    intro x y b h
+    simp only [ms] at h ⊢
+    exact body_mono cfg _ _ (fun x y b hb => by simpa [ms] using ih x y b hb) _ _ b h
+
+theorem ms_mono_le (cfg : Cfg) (n m : Nat) (hle : n ≤ m) (x y : Arg) (b : Bool)
+    (h : ms cfg n x y = some b) : ms cfg m x y = some b := by
+  induction hle with
+  | refl => exact h
+  | step _ ih => exact ms_mono cfg _ x y b ih
+
+/-! ## combining sub-hint predicates -/
+
+mutual
+theorem every_imp (p q : Hint → Bool) (hpq : ∀ x, p x = true → q x = true) :
+    ∀ h : Hint, every p h = true → every q h = true
+  | .cls _, e | .noneVal, e | .literal _, e => by simp only [every] at e ⊢; exact hpq _ e
+  | .unionNew hs, e | .unionOld hs, e | .tupleFix hs, e => by
+    simp only [every, Bool.and_eq_true] at e ⊢
+    exact ⟨hpq _ e.1, everyL_imp p q hpq hs e.2⟩
+  | .annotated a, e | .listOf a, e | .setOf a, e | .tupleVar a, e | .typeOf a, e
+  | .callableOf _ a, e => by
+    simp only [every, Bool.and_eq_true] at e ⊢
+    exact ⟨hpq _ e.1, every_imp p q hpq a e.2⟩
+  | .dictOf k v, e => by
+    simp only [every, Bool.and_eq_true] at e ⊢
+    exact ⟨⟨hpq _ e.1.1, every_imp p q hpq k e.1.2⟩, every_imp p q hpq v e.2⟩
+theorem everyL_imp (p q : Hint → Bool) (hpq : ∀ x, p x = true → q x = true) :
+    ∀ hs : List Hint, everyL p hs = true → everyL q hs = true
+  | [], _ => rfl
+  | h :: hs, e => by
+    simp only [everyL, Bool.and_eq_true] at e ⊢
+    exact ⟨every_imp p q hpq h e.1, everyL_imp p q hpq hs e.2⟩
+end
+
+mutual
+theorem every_and (p q : Hint → Bool) :
+    ∀ h : Hint, every p h = true → every q h = true → every (fun x => p x && q x) h = true
+  | .cls _, e, f | .noneVal, e, f | .literal _, e, f => by simp only [every] at e f ⊢; simp [e, f]
+  | .unionNew hs, e, f | .unionOld hs, e, f | .tupleFix hs, e, f => by
+    simp only [every, Bool.and_eq_true] at e f ⊢
+    exact ⟨⟨e.1, f.1⟩, everyL_and p q hs e.2 f.2⟩
+  | .annotated a, e, f | .listOf a, e, f | .setOf a, e, f | .tupleVar a, e, f | .typeOf a, e, f
+  | .callableOf _ a, e, f => by
+    simp only [every, Bool.and_eq_true] at e f ⊢
+    exact ⟨⟨e.1, f.1⟩, every_and p q a e.2 f.2⟩
+  | .dictOf k v, e, f => by
+    simp only [every, Bool.and_eq_true] at e f ⊢
+    exact ⟨⟨⟨e.1.1, f.1.1⟩, every_and p q k e.1.2 f.1.2⟩, every_and p q v e.2 f.2⟩
+theorem everyL_and (p q : Hint → Bool) :
+    ∀ hs : List Hint, everyL p hs = true → everyL q hs = true →
+      everyL (fun x => p x && q x) hs = true
+  | [], _, _ => rfl
+  | h :: hs, e, f => by
+    simp only [everyL, Bool.and_eq_true] at e f ⊢
+    exact ⟨every_and p q h e.1 f.1, everyL_and p q hs e.2 f.2⟩
+end
+
+theorem every_and3 (p q r : Hint → Bool) (h : Hint) (hp : every p h = true) (hq : every q h = true)
+    (hr : every r h = true) : every (fun x => p x && q x && r x) h = true :=
+  every_and (fun x => p x && q x) r h (every_and p q h hp hq) hr
+
+mutual
+theorem every_true : ∀ h : Hint, every (fun _ => true) h = true
+  | .cls _ | .noneVal | .literal _ => by simp [every]
+  | .unionNew hs | .unionOld hs | .tupleFix hs => by simp [every, everyL_true hs]
+  | .annotated a | .listOf a | .setOf a | .tupleVar a | .typeOf a | .callableOf _ a => by
+    simp [every, every_true a]
+  | .dictOf k v => by simp [every, every_true k, every_true v]
+theorem everyL_true : ∀ hs : List Hint, everyL (fun _ => true) hs = true
+  | [] => rfl
+  | h :: hs => by simp [everyL, every_true h, everyL_true hs]
+end
+
+theorem litClean_of_litsIn (S : Lit → Bool)
+    (hS : ∀ a b, S a = true → S b = true → a.pyEq b = true → a = b) (x : Hint)
+    (hx : litsIn S x = true) : litClean x = true := by
+  cases x <;> simp only [litClean]
+  rename_i ls
+  simp only [litsIn, List.all_eq_true] at hx
+  simp only [List.all_eq_true, Bool.or_eq_true, Bool.not_eq_true', beq_iff_eq]
+  intro a ha b hb
+  cases hab : a.pyEq b
+  · exact Or.inl rfl
+  · exact Or.inr (hS a b (hx a ha) (hx b hb) hab)
+
+theorem every_litsIn_true (h : Hint) : every (litsIn fun _ => true) h = true :=
+  every_imp (fun _ => true) _ (fun x _ => by cases x <;> simp [litsIn]) h (every_true h)
+
 end PwVerif.Hint
